@@ -34,7 +34,9 @@ What is proved here (model M4, where every `expect("inconsistent state")`, `unre
   kind only inside the introspection code, or on a connection id that is already in use, or by running out of the
   model's budget (`Lemmas/Broker/NoPanic.lean`; adds that a connection lists a channel end once — `Nodup.lean` — and that
   closing one end of a channel leaves the other as it was, so that the teardown of a connection only closes ends that
-  are still claimed); `teardown_panics_only_in_introspection`;
+  are still claimed); `teardown_panics_only_in_introspection`; `set_wrapper_asserts_hold` (the `debug_assert!`s inside the
+  set wrappers of `conn_state.rs`, `object.rs`, `service.rs`, which the model does not have as panic sites: what is
+  inserted is new, what is removed is there);
 Partial: the four lookups and four `debug_assert!`s of the introspection code (their invariant — serials ↔ queried
 entries, pending queries of live connections — is not proved), and that the concrete budget `loopFuel` of the model's
 `step` suffices (it is generous; the correspondence runs would show a `fuel` result) are not theorems; that a
@@ -164,6 +166,47 @@ theorem turn_panics_only_in_introspection {b : Broker} {w : Work} (h : Reachable
 theorem teardown_panics_only_in_introspection {b : Broker} {w : Work} (h : Reachable b w) (id : ConnId) (send : Bool) (p : Panic)
     (he : shutdownConnection ⟨b, w, []⟩ id send = .error p) : ∃ t cid, removeIntrospectionConn t cid = .error p :=
   shutdownConnection_panics h.lkinv h.clinv.1 h.nd he
+
+/-- **The `debug_assert!`s of the set wrappers hold** (`ConnectionState::{add,remove}_*`, `Object::{add,remove}_service`,
+`Service::{add,remove}_function_call` assert that an insert adds something new and a removal removes something present;
+the model uses plain set operations there). In every reachable state: the next cookie is not listed by any connection
+as an object, a sender end, a receiver end or a bus listener, nor by any object as a service; what is registered is
+listed where the removal will look for it. -/
+theorem set_wrapper_asserts_hold {b : Broker} {w : Work} (h : Reachable b w) :
+    (∀ id conn, AL.find? id b.conns = some conn →
+        b.nextCookie ∉ conn.objects ∧ b.nextCookie ∉ conn.senders ∧ b.nextCookie ∉ conn.receivers ∧ b.nextCookie ∉ conn.busListeners) ∧
+    (∀ u o, AL.find? u b.objs = some o → b.nextCookie ∉ o.svcs) ∧
+    (∀ u o, AL.find? u b.objs = some o → ∃ conn, AL.find? o.conn b.conns = some conn ∧ o.cookie ∈ conn.objects) ∧
+    (∀ sc oid svu info, AL.find? sc b.svcUuids = some (oid, svu, info) → ∃ o, AL.find? oid.uuid b.objs = some o ∧ sc ∈ o.svcs) ∧
+    (∀ bs call, b.calls.get? bs = some call → ∃ sv, AL.find? (call.calleeObj, call.calleeSvc) b.svcs = some sv ∧ bs ∈ sv.calls) := by
+  have hreg := h.reg
+  have hown := h.own
+  have hrc := RegistryConsistent.of_reg (b := b) (w := w) (out := []) hreg.2
+  have fo : AL.find? b.nextCookie b.objUuids = none := KeysBelow_fresh hreg.1.2.1.below
+  have fs : AL.find? b.nextCookie b.svcUuids = none := KeysBelow_fresh hreg.1.2.2.2.1.below
+  have fc : AL.find? b.nextCookie b.channels = none := KeysBelow_fresh hown.1.1.below
+  have fl : AL.find? b.nextCookie b.listeners = none := KeysBelow_fresh hown.1.2.below
+  refine ⟨fun id conn hc => ⟨?_, ?_, ?_, ?_⟩, ?_, hrc.owner_lists_object, ?_, ?_⟩
+  · intro hm
+    obtain ⟨u, o, hu, _, _⟩ := hrc.listed_object_is_owned id conn _ hc hm
+    rw [fo] at hu; simp at hu
+  · intro hm
+    have := hown.2.o2 id _ (.snd, b.nextCookie) (co_find (s := ⟨b, w, []⟩) hc) (by rw [mem_holds]; exact Or.inl ⟨rfl, hm⟩)
+    simp [own, fc] at this
+  · intro hm
+    have := hown.2.o2 id _ (.rcv, b.nextCookie) (co_find (s := ⟨b, w, []⟩) hc) (by rw [mem_holds]; exact Or.inr (Or.inl ⟨rfl, hm⟩))
+    simp [own, fc] at this
+  · intro hm
+    have := hown.2.o2 id _ (.lsn, b.nextCookie) (co_find (s := ⟨b, w, []⟩) hc) (by rw [mem_holds]; exact Or.inr (Or.inr ⟨rfl, hm⟩))
+    simp [own, fl] at this
+  · intro u o ho hm
+    obtain ⟨svu, info, hs⟩ := hrc.listed_service_is_of_object u o _ ho hm
+    rw [fs] at hs; simp at hs
+  · intro sc oid svu info hs
+    exact (hrc.service_has_live_object sc oid svu info hs).2
+  · intro bs call hg
+    obtain ⟨sv, _, _, _, q1, q2, _⟩ := callee_of_call (s := ⟨b, w, []⟩) h.cal hreg.2 hg
+    exact ⟨sv, q1, q2⟩
 
 /-- **The broker does not hang in its work loop.** From every state — reachable or not — the loop of
 `process_loop_result` stops after finitely many items of deferred work: nothing is left, or an item fails. (Lexicographic
